@@ -54,9 +54,8 @@ def key_of(text):
 
 
 def replay_cmd(ctx, src, name):
-    return ("write the program below to prog.py, then: PYTHONPATH=/verif/tools:"
-            f"{ctx.repo}/guppylang/src:{ctx.repo}/guppylang-internals/src VERIF_REPO={ctx.repo} "
-            f"/venv/bin/python -c \"import repo_shim, prog; prog.{name}.check()\"")
+    return (f"python3 /verif/props/C06/replay.py <this file> {ctx.repo}   (runs {name}.check() of the program "
+            "below, prefixed with gen_prog.HEADER, on the real sources)")
 
 
 def compare(ctx, items, stats, tag):
@@ -149,7 +148,7 @@ def run(ctx) -> int:
     ncorpus = len(items)
 
     # ---- generated programs --------------------------------------------------------------
-    n = 1000 if ctx.quick else 24000
+    n = 800 if ctx.quick else 20000
     rng = vlib.rng(ctx.seed, "programs")
     fns = [gen_prog.gen_function(rng, f"f{i}") for i in range(n)]
     texts = [gen_prog.render(f) for f in fns]
